@@ -121,3 +121,22 @@ reg("C11",
     kernel_groups=["SolverK"],
     partial_clauses=["mixed clamp (512, 4) -> (Nx, Ny) is the implemented behaviour ('Setting both equal'); listed, not raised"],
     assumptions=[])
+
+MISC_BRIDGES = T("Proofs.Bridge.MiscK", "BLDFM.Bridge", ["wind_bridge", "latlon_bridge", "xy_bridge"], "bridge")
+
+reg("C17",
+    T("Proofs.C17", "BLDFM.C17", ["xy_latlon_left_inv", "xy_latlon_right_inv", "origin_maps_to_zero", "x_strictMono_lon",
+                                  "y_strictMono_lat", "meridian_distance_exact"]) + MISC_BRIDGES,
+    kernel_groups=["MiscK"],
+    partial_clauses=["great-circle accuracy (0.1 % / 0.1 degree within 5 km at |lat| <= 60) off the meridian: decided numerically against haversine by the oracle; "
+                     "only the meridian case is a theorem (exact)"],
+    assumptions=["cos(ref_lat) != 0 (non-polar reference)"])
+
+reg("C08",
+    T("Proofs.C08", "BLDFM.C08", ["wind_speed_preserved", "wind_from_bearing", "wind_cardinals", "wind_periodic", "wind_opposite"])
+    + T("Proofs.C17", "BLDFM.C17", ["x_strictMono_lon", "y_strictMono_lat"]) + MISC_BRIDGES,
+    kernel_groups=["MiscK"],
+    partial_clauses=["that the footprint centroid lies on the UPWIND side and within a few degrees of the wind direction for arbitrary directions on a cropped, "
+                     "resolved domain: numeric (oracle, 8 degree threshold, worst observed 5.1); the half-space footprint has no finite first moment, so there is no exact "
+                     "infinite-domain statement to prove"],
+    assumptions=["x = east, y = north (C17 orientation theorems)"])
